@@ -272,6 +272,12 @@ func StepWDMAlt(c *cpualt.CPU, ram *[1 << 24]byte, op byte) { c.Step() }
 // operand(13) '|' registers(21) ' ' flags(8) NL. The frame clause (assigns only the bus debug fields) is the
 // non-perturbation half: CPU state and all of RAM are unchanged.
 
+//@ define OPW1() old(ram[uint32(c.RK)<<16|uint32(c.PC+1)])
+//@ define OPW2() old(ram[uint32(c.RK)<<16|uint32(c.PC+2)])
+//@ define OPW3() old(ram[uint32(c.RK)<<16|uint32(c.PC+3)])
+//@ define OPWIDE() ((w65c816.IsImmM(op) && c.M == 0) || (w65c816.IsImmX(op) && c.X == 0))
+//@ define OPCH(k) (k < w65c816.TraceOperandWidth(op) ==> ret1[len(ret1)-w65c816.TraceTail(op)+25+k] == w65c816.TraceOperandChar(op, OPWIDE(), k, OPW1(), OPW2(), OPW3(), c.PC))
+
 //@ lemma Trace65 property C14
 //@   harness flat65 cpu=c ram=ram op=op
 //@   nosafety
@@ -288,6 +294,19 @@ func StepWDMAlt(c *cpualt.CPU, ram *[1 << 24]byte, op byte) { c.Step() }
 //@   ensures w65c816.Len(op, c.M == 0, c.X == 0) <= 3 ==> ret1[len(ret1)-w65c816.TraceTail(op)+17] == ' ' && ret1[len(ret1)-w65c816.TraceTail(op)+18] == ' ' && ret1[len(ret1)-w65c816.TraceTail(op)+19] == ' '
 //@   ensures ret1[len(ret1)-w65c816.TraceTail(op)+21] == w65c816.TraceName(op)[0] && ret1[len(ret1)-w65c816.TraceTail(op)+22] == w65c816.TraceName(op)[1] && ret1[len(ret1)-w65c816.TraceTail(op)+23] == w65c816.TraceName(op)[2]
 //@   ensures w65c816.Mode(op) == "rel8" ==> w65c816.HexVal(ret1[len(ret1)-w65c816.TraceTail(op)+31])*4096 + w65c816.HexVal(ret1[len(ret1)-w65c816.TraceTail(op)+32])*256 + w65c816.HexVal(ret1[len(ret1)-w65c816.TraceTail(op)+33])*16 + w65c816.HexVal(ret1[len(ret1)-w65c816.TraceTail(op)+34]) == uint32(c.PC + 2 + uint16(int8(old(ram[uint32(c.RK)<<16|uint32(c.PC+1)]))))
+//@   ensures OPCH(0)
+//@   ensures OPCH(1)
+//@   ensures OPCH(2)
+//@   ensures OPCH(3)
+//@   ensures OPCH(4)
+//@   ensures OPCH(5)
+//@   ensures OPCH(6)
+//@   ensures OPCH(7)
+//@   ensures OPCH(8)
+//@   ensures OPCH(9)
+//@   ensures OPCH(10)
+//@   ensures OPCH(11)
+//@   ensures OPCH(12)
 //@   ensures c.M == 0 ==> w65c816.HexVal(ret1[len(ret1)-70+42])*4096 + w65c816.HexVal(ret1[len(ret1)-70+43])*256 + w65c816.HexVal(ret1[len(ret1)-70+44])*16 + w65c816.HexVal(ret1[len(ret1)-70+45]) == uint32(c.RA)
 //@   ensures c.M != 0 ==> ret1[len(ret1)-70+42] == '-' && ret1[len(ret1)-70+43] == '-' && w65c816.HexVal(ret1[len(ret1)-70+44])*16 + w65c816.HexVal(ret1[len(ret1)-70+45]) == uint32(c.RAl)
 //@   ensures c.X == 0 ==> w65c816.HexVal(ret1[len(ret1)-70+49])*4096 + w65c816.HexVal(ret1[len(ret1)-70+50])*256 + w65c816.HexVal(ret1[len(ret1)-70+51])*16 + w65c816.HexVal(ret1[len(ret1)-70+52]) == uint32(c.RX) && w65c816.HexVal(ret1[len(ret1)-70+56])*4096 + w65c816.HexVal(ret1[len(ret1)-70+57])*256 + w65c816.HexVal(ret1[len(ret1)-70+58])*16 + w65c816.HexVal(ret1[len(ret1)-70+59]) == uint32(c.RY)
